@@ -37,6 +37,7 @@ def kinds(k):
                        nontrivial="static_nontrivial"),
         "join": dict(imports=IMPORTS, type="join_case", mismatch="join_mismatches",
                      nontrivial="join_nontrivial"),
+        "live": dict(imports=IMPORTS, type="live_case", mismatch="live_mismatches", nontrivial="live_nontrivial"),
         "table": dict(imports="From Coq Require Import NArith.\nFrom SS Require Import Base M_Bytecode M_ExcTable.",
                       type="table_case", mismatch="table_mismatches", nontrivial="table_nontrivial"),
     }
@@ -209,6 +210,7 @@ def make_descs(tier, seed, which):
     ngen = 80 if tier == "quick" else 1500
     for k in range(ngen):
         descs.append({"src": "gen", "seed": seed * 1000003 + k, "size": 4 + (k % 9)})
+    yield {"_kind": "live", "which": which, "tier": tier, "seed": seed}
     for d in descs:
         yield dict(d, _kind="cert", which=which)
         yield dict(d, _kind="static", which=which)
@@ -245,32 +247,142 @@ def load_code(desc):
     return res
 
 
+def ncaches(units, p):
+    k = 0
+    while p + 1 + k < len(units) and units[p + 1 + k][0] == "ICache":
+        k += 1
+    return k
+
+
+def run_positions(units, p):
+    k = ncaches(units, p)
+    return [p] if k == 0 else [p, p + k]
+
+
 def obs_units(units, cert, which):
     """code units at which an observation of the selected kind can have f_lasti"""
-    out = []
-    for p, u in enumerate(units):
-        if cert[p] is None:
+    return sorted({l for (_, l, _) in machine_obs(units, cert, which)})
+
+
+_LIVE = {}
+
+
+def site_units(co, src):
+    """BEFORE_(ASYNC_)WITH unit -> the site number written in the `M(kind, site ...)` call whose
+    value that instruction enters (located through co_positions and the program text)"""
+    import re
+    lines = src.split("\n")
+    out = {}
+    instrs = list(dis.get_instructions(co))
+    for i, ins in enumerate(instrs):
+        if ins.opname not in ("BEFORE_WITH", "BEFORE_ASYNC_WITH") or i == 0:
             continue
-        k = u[0]
-        if which == "susp":
-            if k == "IYield":
-                out.append(p)
-        else:
-            if k in ("ICall", "IBeforeWith", "IWithExceptStart", "IForIter"):
-                out.append(p)
-            elif k == "IGetAwaitable" and cert[p][0] and cert[p][0][0] == "O":
-                out.append(p)
-            elif k == "ISend":
-                out.append(p + 1)
-            elif k == "ICondJump" and u[2]:
-                out.append(p)
-            elif k == "IGen" and u[3]:
-                out.append(p)
+        # the manager is the result of the CALL `M(kind, site, ...)` evaluated just before
+        call = instrs[i - 1]
+        po = call.positions
+        if call.opname != "CALL" or po is None or po.lineno is None or po.end_lineno is None:
+            continue
+        seg = lines[po.lineno - 1:po.end_lineno]
+        if not seg:
+            continue
+        seg[-1] = seg[-1][:po.end_col_offset]
+        seg[0] = seg[0][po.col_offset:]
+        m = re.match(r"\s*M\(\s*'[^']*',\s*(\d+)", "\n".join(seg))
+        if m:
+            out.setdefault(int(m.group(1)), []).append(ins.offset // 2)
     return out
+
+
+def run_live(desc):
+    """states of real frames (f_lasti + logged ground truth) from the runtime legs, grouped by
+    code object and translated to code units / with-site units"""
+    try:
+        from . import progs
+        corpus = progs.compile_corpus(desc["tier"], desc["seed"])
+        by_code = {id(p.code): p for p in corpus}
+        states, _ = progs.collect_states(desc["tier"], desc["seed"],
+                                         "suspended" if desc["which"] == "susp" else "running",
+                                         limit=4000 if desc["tier"] == "quick" else 40000, progs=corpus)
+    except Exception as ex:  # noqa: BLE001
+        return {"live_error": repr(ex)}
+    groups = {}
+    skipped = 0
+    for st in states:
+        co = st["code"]
+        g = groups.get(id(co))
+        if g is None:
+            prog = by_code.get(id(co))
+            src = getattr(prog, "src", None) if prog is not None else None
+            if src is None:
+                src = _src_of(co, st)
+            g = groups[id(co)] = {"co": co, "src": src, "sites": site_units(co, src) if src else {}, "obs": [], "seen": set()}
+        tr = []
+        ok = True
+        for site, asy, ph in st["truth"]:
+            us = g["sites"].get(site)
+            if not us:
+                ok = False
+                break
+            tr.append((us, bool(asy), ph))
+        if not ok:
+            skipped += 1
+            continue
+        key = (bool(st["running"]), st["lasti"] // 2, json_key(tr))
+        if key in g["seen"]:
+            continue
+        g["seen"].add(key)
+        g["obs"].append({"running": bool(st["running"]), "lasti": st["lasti"] // 2,
+                         "truth": [[list(u), a, p] for (u, a, p) in tr]})
+    _LIVE["groups"] = groups
+    return {"codes": len(groups), "states": sum(len(g["obs"]) for g in groups.values()), "unmapped_states": skipped,
+            "sample": [g["obs"][:2] for g in list(groups.values())[:2]]}
+
+
+def json_key(x):
+    import json
+    return json.dumps(x)
+
+
+def _src_of(co, st):
+    import inspect
+    try:
+        return inspect.getsource(co)
+    except Exception:
+        return None
+
+
+def live_terms():
+    """one Coq case per observed code object; a truth site that a `finally` duplicated into several
+    BEFORE_WITH units is resolved to the unit the certificate has in its truth at that position"""
+    terms = []
+    for g in _LIVE.get("groups", {}).values():
+        co = g["co"]
+        try:
+            units, table = W.abstract_code(co)
+            cert = W.certificate(units, table)
+        except (W.Unsupported, W.Stuck, W.Conflict):
+            continue
+        obs = []
+        for o in g["obs"]:
+            cands = []
+            for p in range(max(0, o["lasti"] - 9), o["lasti"] + 1):
+                if 0 <= p < len(cert) and cert[p] is not None:
+                    cands += [e[0] for e in cert[p][1]]
+            tr = []
+            for us, a, ph in o["truth"]:
+                u = next((x for x in us if x in cands), us[0])
+                tr.append("{| t_site := %d; t_inst := tt; t_async := %s; t_phase := %s |}" % (
+                    u, cbool(a), {"entering": "Entering", "active": "Active", "exiting": "Exiting"}[ph]))
+            obs.append("(%s, %d, %s)" % (cbool(o["running"]), o["lasti"], clist(tr)))
+        if obs:
+            terms.append("(%s,\n %s,\n %s,\n %s)" % (W.code_coq(units), W.table_coq(table), W.cert_coq(cert), clist(obs)))
+    return terms
 
 
 def run_case(desc):
     from stackscope import _lowlevel as ll
+    if desc["_kind"] == "live":
+        return run_live(desc)
 
     co, text = load_code(desc)
     obs = {"what": text if len(text) < 1500 else text[:1500]}
@@ -333,17 +445,18 @@ def machine_obs(units, cert, which):
             if k == "IYield" and st:
                 out.append((False, p, st[1:]))
             continue
-        if k in ("ICall", "IBeforeWith", "IForIter"):
-            out.append((True, p, st))
+        run = False
+        if k in ("ICall", "IBeforeWith", "IForIter", "ISend"):
+            run = True
         elif k == "IWithExceptStart":
-            if len(st) > 3 and isinstance(st[3], tuple) and st[3][0] == "X":
-                out.append((True, p, st))
-        elif k == "ISend":
-            out.append((True, p + 1, st))
-        elif k == "IGetAwaitable" and st and st[0] == "O":
-            out.append((True, p, st))
+            run = len(st) > 3 and isinstance(st[3], tuple) and st[3][0] == "X"
+        elif k == "IGetAwaitable":
+            run = bool(st) and st[0] == "O"
         elif (k == "ICondJump" and u[2]) or (k == "IGen" and u[3]):
-            out.append((True, p, st))
+            run = True
+        if run:
+            for l in run_positions(units, p):
+                out.append((True, l, st))
     return out
 
 
@@ -426,6 +539,8 @@ def join_coq(units, table, obs):
 
 
 def coq_case(desc, obs):
+    if desc["_kind"] == "live":
+        return live_terms() or None
     if desc["_kind"] == "table":
         return "(%s,\n %s)" % (clist(["%d%%N" % b for b in obs["bytes"]]),
                               W.table_coq([tuple(x) for x in obs["parsed"]]))
@@ -452,6 +567,8 @@ def coq_case(desc, obs):
 
 
 def direct_oracle(desc, obs):
+    if desc["_kind"] == "live":
+        return None
     if desc["_kind"] == "table":
         return None if obs["agrees_with_dis"] else "_parse_exception_table disagrees with CPython's own dis._parse_exception_table"
     if "machine_error" in obs:
@@ -474,6 +591,8 @@ def direct_oracle(desc, obs):
 
 
 def classify(desc, obs):
+    if desc["_kind"] == "live":
+        return ["live:states=%s" % obs.get("states"), "live:unmapped=%s" % obs.get("unmapped_states")]
     labs = [desc["src"] + ":" + desc["_kind"]]
     if "units" in obs:
         labs.append("units<%d" % (50 if obs["units"] < 50 else 200 if obs["units"] < 200 else 1000 if obs["units"] < 1000 else 100000))
